@@ -2300,3 +2300,151 @@ def check_C18(tier, seed):
     return res.finish(gate)
 
 CHECKS['C18'] = check_C18
+
+# ---------------------------------------------------------------- C19
+def check_C19(tier, seed):
+    res = Result('C19', tier, seed); res.pending = []
+    gate = proof_gate('C19')
+    core.build_model(); core.build_impl()
+    rng = random.Random(seed)
+    n = tier_n(tier, 300, 8000)
+    hists = []
+    for i in range(n):
+        g = programs.ProgGen(rng, tick_p=0.3)
+        texts = [programs.render_text(t) for t in g.history()]
+        if rng.random() < 0.4:
+            texts.append('(setq ht (make-hash-table)) ' + ' '.join('(puthash %s %d ht)' % (rng.choice(['1', '1.0', "'a", ':k', '2', '0.0', '-0.0']), k) for k in range(rng.choice([1, 3, 6]))) +
+                         ' (list ' + ' '.join('(gethash %s ht)' % k for k in ['1', '1.0', "'a", ':k', '2', '0.0', '-0.0']) + ')')
+        if rng.random() < 0.3:
+            texts.append('(list (prin1-to-string (gensym)) (prin1-to-string (gensym "x")) (prin1-to-string (make-symbol "m")))')
+        hists.append((texts, g.all_vars()))
+    noise = ["(defun length (x) 42)", "(setq max 5)", "(defun f0 (&rest r) 'other-context)", "(setq a 'leak) (setq b 'leak) (setq x 'leak)", "(defmacro when (&rest r) ''hijacked)",
+             "(setq gensym-counter 500)", "(defun car (x) 'no)", "(setq t1 (intern \"t\"))", "(defun r0 (n acc) 'other)", "(setq ht (make-hash-table)) (puthash 1 'other ht)", "(defun + (&rest r) 0)"]
+    alone = []; inter = []
+    for i, (texts, vs) in enumerate(hists):
+        a = Case('a%d' % i)
+        for t in texts: a.eval(t); a.vars(vs)
+        alone.append(a)
+        c = Case('i%d' % i)
+        c.ctx(1); c.eval(rng.choice(noise)); c.ctx(2); c.eval(rng.choice(noise))
+        for t in texts:
+            c.ctx(0); c.eval(t); c.vars(vs)
+            c.ctx(rng.choice([1, 2])); c.eval(rng.choice(noise + hists[rng.randrange(n)][0]))
+        c.ctx(0); c.vars(vs)
+        inter.append(c)
+    implA = core.run_side(core.TLIMPL_DEBUG, alone, announce=True, timeout=60)
+    implB = core.run_side(core.TLIMPL_DEBUG, alone, announce=True, nproc=3, timeout=120)      # other processes, other hash seeds and addresses
+    implC = core.run_side(core.TLIMPL_DEBUG, inter, announce=True, timeout=60)
+    model = core.run_side(core.TLMODEL, alone)
+    ncmp, nskip, dis = core.compare(alone, implA, model)
+    res.cov['evaluations'] += ncmp
+    byid = {c.cid: c for c in alone}
+    for d in dis[:10]:
+        d2 = dict(d); d2['requests'] = byid[d['case']].readable(); d2['impl_decoded'] = decode_line(d['impl']); d2['model_decoded'] = decode_line(d['model']); d2['raw_case'] = byid[d['case']].text()
+        res.pending.append(d2)
+    nv = 0
+    distinct = set()
+    for i, (texts, vs) in enumerate(hists):
+        la, lb = implA.get('a%d' % i, []), implB.get('a%d' % i, [])
+        lc = implC.get('i%d' % i, [])
+        distinct.add(tuple(l.split(' ', 2)[2] for l in la))
+        if [l.split(' ', 2)[2] for l in la] != [l.split(' ', 2)[2] for l in lb]:
+            nv += 1
+            if nv <= 8: res.violation('nondeterminism', {'history': texts, 'run_A': [decode_line(l) for l in la], 'run_B': [decode_line(l) for l in lb], 'why': 'two fresh contexts in two processes give different transcripts'})
+            continue
+        # in the interleaved run, the lines of context 0 are: after the 2 noise lines, (eval, vars, noise) per text, then a final vars
+        mine = []
+        k = 2
+        for _ in texts:
+            mine += lc[k:k + 2]; k += 3
+        mine_obs = [l.split(' ', 2)[2] for l in mine]
+        if mine_obs != [l.split(' ', 2)[2] for l in la][:len(mine_obs)]:
+            nv += 1
+            if nv <= 8: res.violation('isolation', {'history': texts, 'alone': [decode_line(l) for l in la], 'interleaved': [decode_line(l) for l in mine], 'requests': inter[i].readable(),
+                                                    'why': 'a context behaves differently when other contexts are alive in the process'})
+    # ---- load = evaluate
+    lcases = []; lmeta = []
+    for i in range(tier_n(tier, 300, 8000)):
+        g = programs.ProgGen(rng, tick_p=0.3, err_p=0.05)
+        texts = [programs.render_text(t) for t in g.history()]
+        body = texts[-1]
+        if rng.random() < 0.3: body = body.replace(' ', '\r\n', 1) + '\n"cr\r\nlf"'
+        pre = texts[:-1]
+        vs = g.all_vars()
+        c = Case('l%d' % i)
+        mode = rng.choice(['load', 'lisp-load', 'nested', 'twice'])
+        c.file('prog.el', body); c.file('outer.el', '(setq outer-before 1)\n(load "prog.el")')
+        c.ctx(0)
+        for t in pre: c.eval(t)
+        c.ctx(1)
+        for t in pre: c.eval(t)
+        c.ctx(0)
+        if mode == 'load': c.load('prog.el')
+        elif mode == 'lisp-load': c.eval('(load "prog.el")')
+        elif mode == 'nested': c.load('outer.el')
+        else: c.load('prog.el')
+        c.vars(vs)
+        c.ctx(1); c.eval(body); c.vars(vs)
+        if mode == 'twice':
+            c.ctx(0); c.eval("(defmacro m-late (x) (list 'quote x))"); c.load('prog.el'); c.vars(vs)
+            c.ctx(1); c.eval("(defmacro m-late (x) (list 'quote x))"); c.eval(body); c.vars(vs)
+        lcases.append(c); lmeta.append({'npre': len(pre), 'mode': mode, 'body': body})
+    # a file whose macro is redefined between two loads
+    for j in range(tier_n(tier, 20, 200)):
+        c = Case('lm%d' % j)
+        body = "(list (mm %d) (mm (+ 1 %d)))" % (j, j)
+        c.file('prog.el', body)
+        c.ctx(0); c.eval("(defmacro mm (x) (list '+ x 1))"); c.ctx(1); c.eval("(defmacro mm (x) (list '+ x 1))")
+        c.ctx(0); c.load('prog.el'); c.vars(['a']); c.ctx(1); c.eval(body); c.vars(['a'])
+        c.ctx(0); c.eval("(defmacro mm (x) (list '* x 10))"); c.ctx(1); c.eval("(defmacro mm (x) (list '* x 10))")
+        c.ctx(0); c.load('prog.el'); c.vars(['a']); c.ctx(1); c.eval(body); c.vars(['a'])
+        lcases.append(c); lmeta.append({'npre': 1, 'mode': 'macro-redefined', 'body': body})
+    implL = core.run_side(core.TLIMPL_DEBUG, lcases, announce=True, env={'TL_SHOWERR': '1'}, timeout=60)
+    modelL = core.run_side(core.TLMODEL, lcases)
+    def strip_msg(l):
+        # error messages are compared apart from the reported file name
+        p = l.split(' ')
+        if len(p) > 4 and p[2] == 'E' and 'M' in p:
+            k = p.index('M')
+            msg = unhx(p[k + 1])
+            msg = re.sub(r'(?m)^(\S*?/)?(prog|outer)\.el:', '<text>:', msg).replace('<eval_string>:', '<text>:')
+            msg = '\n'.join(x for x in msg.split('\n') if 'outer.el' not in x and '(load "prog.el")' not in x)
+            return ' '.join(p[2:k]) + ' ' + msg + ' ' + ' '.join(p[k + 2:])
+        return l.split(' ', 2)[2]
+    for c, meta in zip(lcases, lmeta):
+        ls = implL.get(c.cid, [])
+        npre = meta['npre']
+        rest = ls[2 * npre:]
+        res.cov['evaluations'] += len(rest)
+        pairs = []
+        if meta['mode'] == 'twice':
+            pairs = [(0, 2), (1, 3), (5, 8), (6, 9)] if len(rest) >= 10 else []
+        elif meta['mode'] == 'macro-redefined':
+            pairs = [(0, 2), (1, 3), (6, 8), (7, 9)] if len(rest) >= 10 else []
+        else:
+            pairs = [(0, 2), (1, 3)] if len(rest) >= 4 else []
+        for a, b in pairs:
+            if strip_msg(rest[a]) != strip_msg(rest[b]):
+                nv += 1
+                if nv <= 8: res.violation('load-vs-eval', {'file_contents': meta['body'], 'mode': meta['mode'], 'loaded': decode_line(rest[a]), 'evaluated_as_string': decode_line(rest[b]),
+                                                           'requests': c.readable(), 'why': 'loading a file and evaluating its contents differ (value, effects, variables or error apart from the file name)'})
+                break
+    # correspondence for the load histories (without messages)
+    implL2 = {k: [re.sub(r' M [0-9a-f-]+', '', l) for l in v] for k, v in implL.items()}
+    ncmp, nskip, dis = core.compare(lcases, implL2, modelL)
+    res.cov['evaluations'] += ncmp
+    byid = {c.cid: c for c in lcases}
+    for d in dis[:10]:
+        d2 = dict(d); d2['requests'] = byid[d['case']].readable(); d2['impl_decoded'] = decode_line(d['impl']); d2['model_decoded'] = decode_line(d['model']); d2['raw_case'] = byid[d['case']].text()
+        res.pending.append(d2)
+    res.cov['distinct_nontrivial'] = len(distinct)
+    res.cov['rule'] = ('%d histories (programs, hash-table sequences with numeric / symbol keys, gensym) each run alone, alone again in other processes, and interleaved request by request with two other contexts '
+                       'that redefine built-ins, functions and variables of the same names; oracle: the three transcripts of the observed context are identical (values, errors, tick logs, variables); '
+                       'load: file contents (incl. CRLF and CR LF inside strings) loaded via eval_file, via (load ..), through a nested load and twice around a macro redefinition, against eval_string of the same text '
+                       'in a sibling context; error messages compared apart from the file name; correspondence with the model' % n)
+    res.cov['samples'] = [hists[0][0]]
+    for d in res.pending:
+        res.violation('disagreement', d, no_input=not oracle_confirms(d))
+    return res.finish(gate)
+
+CHECKS['C19'] = check_C19
